@@ -78,7 +78,7 @@ struct Cfg {
 // ---------------------------------------------------------------------------------------------- run log
 struct Log {
   mc::Shared<int> runs[kMaxN], start[kMaxN], fin[kMaxN];
-  mc::Shared<int> clock{0}, inflight{0};
+  mc::Shared<int> clock{0}, inflight{0}, on_caller{0}, on_worker{0}, overlap{0};
   int plainv[kMaxN]; // plain data: written by node i, read by its dependents (the TSan leg sees a missing edge)
   // expectation for the evaluation in progress (written by T0 before the executor starts)
   unsigned R = 0; // nodes expected to run
@@ -111,11 +111,12 @@ struct Log {
         int v = plainv[p];
         if (immediate && fin[p].get() != 0) MC_CHECK(v == epoch, "[%s] %s: node %d does not see the value written by predecessor %d (%d, expected %d)", cfg->str().c_str(), phase, i, p, v, epoch);
       }
+    // (mc::cover is only called from T0: its table is touched through libc string functions, which TSan intercepts)
     if (mc_self_id() == 0)
-      mc::cover("node_on_caller");
+      on_caller.set(1);
     else
-      mc::cover("node_on_worker");
-    if (inflight.add(1) > 0) mc::cover("nodes_overlap");
+      on_worker.set(1);
+    if (inflight.add(1) > 0) overlap.set(1);
     if (yield_in_body)
       std::this_thread::yield(); // canonical-schedule batches: hand the processor to whoever else can run
     else
@@ -376,6 +377,9 @@ struct World {
           if (((R >> j) & 1) && !((R >> i) & 1)) mc::cover("complete_predecessor_of_rerun_node");
           if (((R >> i) & 1) && !((R >> j) & 1)) mc::cover("complete_dependent_of_rerun_node");
         }
+    if (L.on_caller.get()) mc::cover("node_on_caller");
+    if (L.on_worker.get()) mc::cover("node_on_worker");
+    if (L.overlap.get()) mc::cover("nodes_overlap");
     if (R != 0 && R != live) mc::cover("partial_evaluation");
     if (R == 0) mc::cover("empty_evaluation");
     long order = 0; // the order in which the nodes started, as an outcome
@@ -617,10 +621,18 @@ void one(const mc::Params& P, bool c31) {
 // Enumerates the slice; `f` is called for every configuration.
 template <class F>
 long enumerate(const mc::Params& P, bool c31, F&& f) {
-  Cfg base = cfg_from(P);
-  int n = base.n, bmax = (int)P("bmax", 3);
+  Cfg base0 = cfg_from(P);
+  int bmax = (int)P("bmax", 3);
   long o_sel = P("o", -1), s_sel = P("s", -1), e_sel = P("e", -1), mv_sel = P("mv", 0);
   long part = P("part", 0), parts = P("parts", 1), idx = 0, done = 0;
+  int nlo = (int)P("nlo", base0.n); // node counts nlo..n
+  std::string exs = P.s("exs", ""); // executors, e.g. "0123"; default: the one given by ex
+  if (exs.empty()) exs = std::string(1, (char)('0' + base0.ex));
+  for (int n = nlo; n <= base0.n; n++)
+  for (char exc : exs) {
+  Cfg base = base0;
+  base.n = n;
+  base.ex = exc - '0';
   unsigned all = (1u << n) - 1;
   int PP = npairs(n);
   for (unsigned e = 0; e < (1u << PP); e++) {
@@ -680,6 +692,7 @@ long enumerate(const mc::Params& P, bool c31, F&& f) {
       }
       if (b == 0) break;
     }
+  }
   }
   return done;
 }
